@@ -69,6 +69,9 @@ class ImmutableListMixin:
     def reverse(self: t.Any) -> t.NoReturn:
         _immutable_error(self)
 
+    def clear(self) -> t.NoReturn:
+        _immutable_error(self)
+
     def sort(self, key: t.Any = None, reverse: t.Any = False) -> t.NoReturn:
         _immutable_error(self)
 
@@ -219,6 +222,9 @@ class ImmutableHeadersMixin:
         _immutable_error(self)
 
     def popitem(self) -> t.NoReturn:
+        _immutable_error(self)
+
+    def clear(self) -> t.NoReturn:
         _immutable_error(self)
 
     def setdefault(self, key: t.Any, default: t.Any) -> t.NoReturn:
